@@ -3,7 +3,7 @@ from .. import core, sched
 from ..gen import KEY_POOL, PREFIX, hx, rng_for
 
 ENGINES = ["memkv", "badger", "tikv"]
-EXTRA_PROP_MODULES = [("KB.Props.C11Conflict", "KB.C11Conflict"), ("KB.Props.C01Repair", "KB.C01Repair")]
+EXTRA_PROP_MODULES = [("KB.Props.OrderC11", "KB.OrderC11"), ("KB.Props.C11Conflict", "KB.C11Conflict"), ("KB.Props.C01Repair", "KB.C01Repair")]
 
 
 def exhaustive_pairs(seed, engine):
